@@ -51,7 +51,10 @@ def rnd_scale(rng):
 
 
 def near(rng):
-    """distance from a bound: log-uniform in [1e-9, 1]"""
+    """distance from a bound: log-uniform in [1e-9, 1], sometimes down to 1e-18 (representable next
+    to a bound close to 0 only; the callers fall back to an interior value otherwise)"""
+    if rng.random() < 0.15:
+        return 10 ** rng.uniform(-18, -9)
     return 10 ** rng.uniform(-9, 0)
 
 
@@ -189,27 +192,75 @@ def shape_bounds(rng, shape):
     return 0.0, b, None, b
 
 
+TINY = 1e-12
+
+# distances from a bound for the "edge" stream: 0, the smallest representable one, 1e-18 .. 1e-9,
+# and the thresholds of init_ (TINY and 2 TINY, from both sides)
+EDGE_DIST = ([0.0, "ulp"] + [10.0 ** -k for k in range(18, 8, -1)]
+             + [0.5e-12, 0.999e-12, 1e-12, 1.001e-12, 1.5e-12, 1.999e-12, 2e-12, 2.001e-12, 3e-12, 2.0 ** -42])
+
+
+def edge_param(rng, shape, stats):
+    """a constraint of the given shape and a value at a chosen small distance from one of its finite
+    bounds (inside the interval, on the bound, or -- for an open bound at distance 0 -- rejected)"""
+    finite = shape in ("cc", "oo", "co", "oc")
+    side = rng.choice(["lo", "hi"]) if finite else ("lo" if shape in ("gt", "ge") else "hi")
+    while True:
+        # the bound next to the value: often 0 so that distances down to 1e-18 are representable
+        r = rng.random()
+        if r < 0.45:
+            b = 0.0
+        elif r < 0.6:
+            b = rng.choice([1.0, -1.0, 0.5, -0.25, 2.0 ** -10])
+        else:
+            b = rnd_bound(rng)
+        if finite:
+            rr = rng.random()
+            w = rng.choice([1.0, 0.5, 1e-3, 8.0, 0.487]) if rr < 0.5 else 10 ** rng.uniform(-3, 3.3)
+            lo, hi = (b, b + w) if side == "lo" else (b - w, b)
+            if -1e3 <= lo < hi <= 1e3 and hi - lo >= 1e-3:
+                break
+        elif side == "lo":
+            lo, hi = b, 0.0
+            break
+        else:
+            lo, hi = 0.0, b
+            break
+    d = rng.choice(EDGE_DIST)
+    sgn = 1.0 if side == "lo" else -1.0
+    if d == "ulp":
+        v = math.nextafter(b, sgn * math.inf)
+        dname = "ulp"
+    else:
+        v = b + sgn * d
+        dname = "0" if d == 0.0 else ("1e%d" % round(math.log10(d)) if d in [10.0 ** -k for k in range(18, 8, -1)] else "tiny-ish")
+        if v == b and d != 0.0:
+            # not representable next to this bound: the nearest representable value inside
+            v = math.nextafter(b, sgn * math.inf)
+            dname = "ulp"
+    closed = (shape in ("cc", "co", "ge") and side == "lo") or (shape in ("cc", "oc", "le") and side == "hi")
+    for key in ("edge_%s_%s_%s" % (shape, side, "closed" if closed else "open"),
+                "edge_dist_%s_%s" % ("closed" if closed else "open", dname)):
+        stats[key] = stats.get(key, 0) + 1
+    return lo, hi, v
+
+
 def wrapper_case(rng, idx, stats):
     n = rng.randint(1, 5)
     toks = []
     shapes = []
     for i in range(n):
         shape = rng.choice(SHAPES)
+        if shape != "none" and rng.random() < 0.3:
+            # values at distance 0, 1 ulp, 1e-18 .. 1e-9, ~TINY, ~2 TINY from a closed or an open
+            # bound, all eight configurations (at distance 0 from an open bound the function's own
+            # Parameter constructor raises: the exception stream)
+            lo, hi, v = edge_param(rng, shape, stats)
+            shapes.append(shape)
+            toks += [shape, hx(lo), hx(hi), hx(v), hx(dyadic(rng)), hx(dyadic(rng)), hx(dyadic(rng, 0.4))]
+            continue
         lo, hi, ilo, ihi = shape_bounds(rng, shape)
         v = value_in(rng, ilo, ihi, stats)
-        r = rng.random()
-        # closed bounds: sometimes exactly at the bound / within TINY of it (init_ nudges the value)
-        if r < 0.06 and shape in ("cc", "co", "ge"):
-            v = lo if rng.random() < 0.7 else lo + 2.0 ** -42
-            stats["at_closed"] = stats.get("at_closed", 0) + 1
-        elif r < 0.12 and shape in ("cc", "oc", "le"):
-            v = hi if rng.random() < 0.7 else hi - 2.0 ** -42
-            stats["at_closed"] = stats.get("at_closed", 0) + 1
-        elif r < 0.13 and shape in ("oo", "oc", "gt"):
-            # closer than TINY to an open bound: outside the property's quantifier, kept as a
-            # rare stream because the model reproduces what the code does there
-            v = lo + abs(lo) * 2.0 ** -50 + 2.0 ** -60
-            stats["within_tiny_open"] = stats.get("within_tiny_open", 0) + 1
         if shape in ("cc", "oo", "co", "oc") and not (lo <= v <= hi):
             v = (lo + hi) / 2
         shapes.append(shape)
@@ -217,26 +268,52 @@ def wrapper_case(rng, idx, stats):
     stats["n%d" % n] = stats.get("n%d" % n, 0) + 1
     for sh in shapes:
         stats["shape_" + sh] = stats.get("shape_" + sh, 0) + 1
-    ops = ["w.new %d %s" % (n, " ".join(toks))]
+    # which of the function's parameters the wrapper reparametrises: all of them (first constructor)
+    # or a sub-list in any order, possibly with a foreign parameter (second constructor)
+    if rng.random() < 0.2:
+        k = rng.randint(1, n)
+        sel = rng.sample(range(n), k)
+        seltoks = [str(i) for i in sel]
+        if rng.random() < 0.3:
+            seltoks.insert(rng.randint(0, len(seltoks)), "f")
+        ops = ["w.newsub %d %s %s" % (n, ",".join(seltoks), " ".join(toks))]
+        stats["ctor_sublist"] = stats.get("ctor_sublist", 0) + 1
+    else:
+        sel = list(range(n))
+        ops = ["w.new %d %s" % (n, " ".join(toks))]
+        stats["ctor_all"] = stats.get("ctor_all", 0) + 1
+    m = len(sel)
     h = 2.0 ** -12
     for _ in range(rng.randint(3, 12)):
         r = rng.random()
-        if r < 0.45:
-            k = rng.randint(1, n)
-            idxs = sorted(rng.sample(range(n), k))
+        if r < 0.4:
+            k = rng.randint(1, m)
+            idxs = sorted(rng.sample(sel, k))
             ops.append("w.set %d %s" % (k, " ".join("%d %s" % (i, hx(coord(rng))) for i in idxs)))
+        elif r < 0.47:
+            # f() on current values: nothing changes, only the named coordinates are pushed
+            k = rng.randint(1, m)
+            idxs = sorted(rng.sample(sel, k))
+            ops.append("w.touch %d %s" % (k, " ".join("%d" % i for i in idxs)))
         elif r < 0.58:
-            ops.append("w.d1 %d" % rng.randrange(n))
+            ops.append("w.d1 %d" % rng.choice(sel))
         elif r < 0.7:
-            ops.append("w.d2 %d %d" % (rng.randrange(n), rng.randrange(n)))
-        elif r < 0.88 or n == 1:
-            ops.append("w.fd %d %s" % (rng.randrange(n), hx(h)))
+            ops.append("w.d2 %d %d" % (rng.choice(sel), rng.choice(sel)))
+        elif r < 0.88 or m == 1:
+            ops.append("w.fd %d %s" % (rng.choice(sel), hx(h)))
         else:
-            i = rng.randrange(n)
-            j = rng.choice([x for x in range(n) if x != i])
-            if rng.random() < 0.7 and n > 1:
-                j = i + 1 if i + 1 < n else i - 1
+            i = rng.choice(sel)
+            j = rng.choice([x for x in sel if x != i])
+            if rng.random() < 0.7 and (i + 1 in sel or i - 1 in sel):
+                j = i + 1 if i + 1 in sel else i - 1
             ops.append("w.fdx %d %d %s" % (i, j, hx(h)))
+    rest = [i for i in range(n) if i not in sel]
+    if rest and rng.random() < 0.25:
+        # a parameter the wrapper was not given: ParameterNotFoundException (last op: the harness
+        # drops the wrapper after an exception)
+        i = rng.choice(rest)
+        ops.append(rng.choice(["w.set 1 %d %s" % (i, hx(coord(rng))), "w.d1 %d" % i, "w.touch 1 %d" % i,
+                               "w.d2 %d %d" % (i, rng.choice(sel)), "w.fd %d %s" % (i, hx(h))]))
     return ["case wr%d n%d" % (idx, n)] + ops
 
 
